@@ -17,7 +17,7 @@
        step (0 slot fid) Register<slot>(callback fid), fid = -1: Register<slot>(nil)
             (1 slot arg) call <slot> with argument object number arg
        slot 0 CheckTStruct, 1 ThriftRead, 2 ThriftWrite
-       callback fid returns error number (fid + arg) mod 4 of a fixed table, 0 = nil
+       callback fid returns error number (fid + arg) mod 8 of a fixed table, 0 = nil
        output one item per step: () for a registration, for a call
             (class code gotFid gotArg gotRW)
             class 0 nil, 1 the slot's own not-registered error (exact text, same value on a
@@ -178,7 +178,7 @@ Definition dec_slot (z : Z) : option slotid :=
 Definition slot_code (s : slotid) : Z := match s with SCheck => 0 | SRead => 1 | SWrite => 2 end.
 
 (* callback number fid: receives the argument number, reports (fid, arg) and the error number *)
-Definition cb (fid : Z) (arg : Z) : Z * Z * Z := ((fid + arg) mod 4, fid, arg).
+Definition cb (fid : Z) (arg : Z) : Z * Z * Z := ((fid + arg) mod 8, fid, arg).
 
 Definition show_result (r : res (result (Z * Z * Z))) : cval :=
   match r with
@@ -212,7 +212,7 @@ Fixpoint spec_reg (steps outs : list cval) (regs : list (Z * Z)) : bool :=
       let cur := match find (fun p => fst p =? sl) regs with Some (_, fid) => fid | None => -1 end in
       (if cur <? 0
        then (cls =? 1) && (code =? sl) && (gf =? -1) && (ga =? -1) && (grw =? -1)      (* specific error, nothing called *)
-       else (code =? (cur + arg) mod 4) && (cls =? (if code =? 0 then 0 else 2))       (* the callback's result *)
+       else (code =? (cur + arg) mod 8) && (cls =? (if code =? 0 then 0 else 2))       (* the callback's result *)
             && (gf =? cur) && (ga =? arg) && (grw =? 1))                                 (* exactly the arguments *)
       && spec_reg rest xs regs
   | _, _ => false
